@@ -46,6 +46,37 @@ theorem unlinkAll_no_incoming (s : Store) (D : List ObjId) (o d : ObjId) (n : St
   rw [(unlinkAll_frame s D o).1]
   simp [hd]
 
+/-- a deleted object has no hard link left: its reference count is 0 -/
+theorem sum_zero_of_all_zero : ∀ (l : List Nat), (∀ x ∈ l, x = 0) → l.sum = 0
+  | [], _ => rfl
+  | x :: xs, h => by
+    simp only [List.sum_cons]
+    rw [h x (by simp), sum_zero_of_all_zero xs (fun y hy => h y (List.mem_cons_of_mem _ hy))]
+
+theorem unlinkAll_refCount (s : Store) (D : List ObjId) (d : ObjId) (hd : d ∈ D) : (s.unlinkAll D).refCount d = 0 := by
+  unfold Store.refCount Store.unlinkAll
+  apply sum_zero_of_all_zero
+  intro x hx
+  simp only [List.map_map, List.mem_map, Function.comp] at hx
+  obtain ⟨ob, _, rfl⟩ := hx
+  simp only [List.length_eq_zero_iff]
+  apply List.filter_eq_nil_iff.mpr
+  intro l hl
+  have hl2 := (List.mem_filter.mp hl).2
+  by_cases h : l.2 = d
+  · rw [h] at hl2; simp [hd] at hl2
+  · simp [h]
+
+/-- **deleted_handle_reports_invalid** — C04: "handles to it report themselves invalid": whatever handle still wraps a deleted
+    object (the victim, anything of its subtree), `isValidEntity` answers false after the delete — for EVERY store and every set of
+    deleted objects, hence for every delete entry point (`delete_only_unlinks`) -/
+theorem deleted_handle_reports_invalid (s : Store) (D : List ObjId) (d : ObjId) (hd : d ∈ D) :
+    isValidEntity (s.unlinkAll D) d = false := by
+  simp [isValidEntity, unlinkAll_refCount s D d hd]
+
+theorem deleted_handle_refused (s : Store) (D : List ObjId) (h : Handle) (hd : h.obj ∈ D) : validHandle (s.unlinkAll D) (some h) = false := by
+  simp [validHandle, deleted_handle_reports_invalid s D h.obj hd]
+
 /-- "no dangling reference": after the delete, a deleted object is reachable from nothing but itself -/
 theorem unlinkAll_unreachable (s : Store) (D : List ObjId) (a d : ObjId) (hd : d ∈ D) (h : Reach (s.unlinkAll D) a d) : a = d := by
   cases h with
